@@ -488,6 +488,38 @@ func Touch(name string) {
 	s.fp += hash64(hashStr(name), g.nameH, uint64(g.vc[g.ID]))
 }
 
+// TouchKey is Touch on the object name+"/"+key.
+func TouchKey(name, key string) { Touch(name + "/" + key) }
+
+// QuietMutex: a mutex for critical sections that contain no scheduling point. Under the
+// scheduler such a section is atomic anyway, so the lock is neither a scheduling point
+// nor a happens-before edge; holding it across a point is reported.
+type QuietMutex struct {
+	real sync.Mutex
+	held bool
+}
+
+func (m *QuietMutex) Lock() {
+	s := S
+	if s == nil {
+		m.real.Lock()
+		return
+	}
+	if m.held && !s.aborted {
+		Violationf("harness: quiet mutex contended (held across a scheduling point)")
+	}
+	m.held = true
+}
+
+func (m *QuietMutex) Unlock() {
+	s := S
+	if s == nil {
+		m.real.Unlock()
+		return
+	}
+	m.held = false
+}
+
 var touchObjs = map[*Sched]map[string]map[int]int{}
 
 func touchObj(s *Sched, name string) map[int]int {
